@@ -209,4 +209,132 @@ theorem states_last_wins (r1 r2 : List Str) (raw : Str) (p0 p' : Pre) (lines : L
   obtain ⟨e1, e2⟩ := parseModelInfo_no_states_map r2 q1 p' _ lines h3 hno
   rw [e1, e2, hq]; exact he
 
+/-! ### the same for `actions:` and `observations:` — one lemma about what a preamble action can touch -/
+
+/-- what one successful preamble action leaves alone: a field changes only on a line starting with its keyword -/
+theorem preLine_keeps (p p' : Pre) (l : Str) (h : preLine fl p l = some (.ok p')) :
+    (startsWith l kwStates = false → p'.S = p.S ∧ p'.smap = p.smap) ∧
+    (startsWith l kwActions = false → p'.A = p.A ∧ p'.amap = p.amap) ∧
+    (startsWith l kwObservations = false → p'.O = p.O ∧ p'.omap = p.omap) ∧
+    (startsWith l kwDiscount = false → p'.disc = p.disc) := by
+  unfold preLine at h
+  split at h
+  · injection h with h; have := pure_ok.1 h; subst this
+    exact ⟨fun _ => ⟨rfl, rfl⟩, fun _ => ⟨rfl, rfl⟩, fun _ => ⟨rfl, rfl⟩, fun _ => rfl⟩
+  · split at h
+    · rename_i hs
+      injection h with h
+      obtain ⟨⟨n, m⟩, _, hq⟩ := bind_ok.1 h
+      have := pure_ok.1 hq; subst this
+      exact ⟨(fun hc => (by rw [hs] at hc; cases hc)), fun _ => ⟨rfl, rfl⟩, fun _ => ⟨rfl, rfl⟩, fun _ => rfl⟩
+    · split at h
+      · rename_i ha
+        injection h with h
+        obtain ⟨⟨n, m⟩, _, hq⟩ := bind_ok.1 h
+        have := pure_ok.1 hq; subst this
+        exact ⟨fun _ => ⟨rfl, rfl⟩, (fun hc => (by rw [ha] at hc; cases hc)), fun _ => ⟨rfl, rfl⟩, fun _ => rfl⟩
+      · split at h
+        · rename_i ho
+          injection h with h
+          obtain ⟨⟨n, m⟩, _, hq⟩ := bind_ok.1 h
+          have := pure_ok.1 hq; subst this
+          exact ⟨fun _ => ⟨rfl, rfl⟩, fun _ => ⟨rfl, rfl⟩, (fun hc => (by rw [ho] at hc; cases hc)), fun _ => rfl⟩
+        · split at h
+          · rename_i hd
+            injection h with h
+            obtain ⟨t, _, hq⟩ := bind_ok.1 h
+            obtain ⟨d, _, hq⟩ := bind_ok.1 hq
+            have := pure_ok.1 hq; subst this
+            exact ⟨fun _ => ⟨rfl, rfl⟩, fun _ => ⟨rfl, rfl⟩, fun _ => ⟨rfl, rfl⟩, (fun hc => (by rw [hd] at hc; cases hc))⟩
+          · cases h
+
+/-- over a run of lines none of which starts with the keyword `kw`, whatever `sel` reads from the preamble state is
+    unchanged, provided single actions on non-`kw` lines leave it alone -/
+theorem parseModelInfo_keeps {α} (sel : Pre → α) (kw : Str)
+    (hk : ∀ p p' l, preLine fl p l = some (.ok p') → startsWith l kw = false → sel p' = sel p)
+    (raws : List Str) (p p' : Pre) (acc lines : List Str)
+    (h : parseModelInfo fl raws p acc = .ok (p', lines))
+    (hno : ∀ raw ∈ raws, startsWith (trim raw) kw = false) : sel p' = sel p := by
+  induction raws generalizing p acc with
+  | nil => simp only [parseModelInfo, pure_ok] at h; injection h with h1 _; rw [h1]
+  | cons raw rest ih =>
+    have hno' : ∀ raw ∈ rest, startsWith (trim raw) kw = false := fun x hx => hno x (List.mem_cons_of_mem _ hx)
+    simp only [parseModelInfo] at h
+    split at h
+    · exact ih p acc h hno'
+    · split at h
+      · rename_i r hr
+        obtain ⟨p1, hp1, h⟩ := bind_ok.1 h
+        subst hp1
+        rw [ih p1 acc h hno', hk p p1 (trim raw) hr (hno raw List.mem_cons_self)]
+      · exact ih p _ h hno'
+
+theorem preLine_actions_line (p : Pre) (l : Str) (h : startsWith l kwActions = true) :
+    preLine fl p l = some (do let (n, m) ← extractIDs fl l; pure { p with A := n, amap := m }) := by
+  have hv : kwValues = 'v' :: "alues".toList := by decide
+  have hs : kwStates = 's' :: "tates".toList := by decide
+  have ha : kwActions = 'a' :: "ctions".toList := by decide
+  cases l with
+  | nil => rw [ha] at h; simp [startsWith] at h
+  | cons c r =>
+    have hc : c = 'a' := by
+      rw [ha] at h; simp only [startsWith, Bool.and_eq_true, beq_iff_eq] at h; exact h.1
+    subst hc
+    have e1 : startsWith ('a' :: r) kwValues = false := by rw [hv]; simp [startsWith]
+    have e2 : startsWith ('a' :: r) kwStates = false := by rw [hs]; simp [startsWith]
+    unfold preLine
+    simp only [e1, e2, h, Bool.false_eq_true, if_false, if_true]
+
+theorem preLine_observations_line (p : Pre) (l : Str) (h : startsWith l kwObservations = true) :
+    preLine fl p l = some (do let (n, m) ← extractIDs fl l; pure { p with O := n, omap := m }) := by
+  have hv : kwValues = 'v' :: "alues".toList := by decide
+  have hs : kwStates = 's' :: "tates".toList := by decide
+  have ha : kwActions = 'a' :: "ctions".toList := by decide
+  have ho : kwObservations = 'o' :: "bservations".toList := by decide
+  cases l with
+  | nil => rw [ho] at h; simp [startsWith] at h
+  | cons c r =>
+    have hc : c = 'o' := by
+      rw [ho] at h; simp only [startsWith, Bool.and_eq_true, beq_iff_eq] at h; exact h.1
+    subst hc
+    have e1 : startsWith ('o' :: r) kwValues = false := by rw [hv]; simp [startsWith]
+    have e2 : startsWith ('o' :: r) kwStates = false := by rw [hs]; simp [startsWith]
+    have e3 : startsWith ('o' :: r) kwActions = false := by rw [ha]; simp [startsWith]
+    unfold preLine
+    simp only [e1, e2, e3, h, Bool.false_eq_true, if_false, if_true]
+
+/-- **later preamble lines override earlier ones (actions)** -/
+theorem actions_last_wins (r1 r2 : List Str) (raw : Str) (p0 p' : Pre) (lines : List Str)
+    (h : parseModelInfo fl (r1 ++ raw :: r2) p0 [] = .ok (p', lines))
+    (hne : (trim raw).isEmpty = false) (hd : startsWith (trim raw) kwActions = true)
+    (hno : ∀ x ∈ r2, startsWith (trim x) kwActions = false) :
+    extractIDs fl (trim raw) = .ok (p'.A, p'.amap) := by
+  rw [parseModelInfo_append] at h
+  obtain ⟨⟨q, l1⟩, _, h2⟩ := bind_ok.1 h
+  simp only [parseModelInfo, hne, Bool.false_eq_true, if_false, preLine_actions_line q (trim raw) hd] at h2
+  obtain ⟨q1, hq1, h3⟩ := bind_ok.1 h2
+  obtain ⟨⟨n, m⟩, he, h4⟩ := bind_ok.1 hq1
+  have hq : q1 = { q with A := n, amap := m } := (pure_ok.1 h4).symm
+  have := parseModelInfo_keeps (fl := fl) (fun p => (p.A, p.amap)) kwActions
+    (fun p p' l hp hl => by have := ((preLine_keeps p p' l hp).2.1 hl); simp [this.1, this.2]) r2 q1 p' _ lines h3 hno
+  simp only [Prod.mk.injEq] at this
+  rw [this.1, this.2, hq]; exact he
+
+/-- **later preamble lines override earlier ones (observations)** -/
+theorem observations_last_wins (r1 r2 : List Str) (raw : Str) (p0 p' : Pre) (lines : List Str)
+    (h : parseModelInfo fl (r1 ++ raw :: r2) p0 [] = .ok (p', lines))
+    (hne : (trim raw).isEmpty = false) (hd : startsWith (trim raw) kwObservations = true)
+    (hno : ∀ x ∈ r2, startsWith (trim x) kwObservations = false) :
+    extractIDs fl (trim raw) = .ok (p'.O, p'.omap) := by
+  rw [parseModelInfo_append] at h
+  obtain ⟨⟨q, l1⟩, _, h2⟩ := bind_ok.1 h
+  simp only [parseModelInfo, hne, Bool.false_eq_true, if_false, preLine_observations_line q (trim raw) hd] at h2
+  obtain ⟨q1, hq1, h3⟩ := bind_ok.1 h2
+  obtain ⟨⟨n, m⟩, he, h4⟩ := bind_ok.1 hq1
+  have hq : q1 = { q with O := n, omap := m } := (pure_ok.1 h4).symm
+  have := parseModelInfo_keeps (fl := fl) (fun p => (p.O, p.omap)) kwObservations
+    (fun p p' l hp hl => by have := ((preLine_keeps p p' l hp).2.2.1 hl); simp [this.1, this.2]) r2 q1 p' _ lines h3 hno
+  simp only [Prod.mk.injEq] at this
+  rw [this.1, this.2, hq]; exact he
+
 end AITB.Cassandra
